@@ -398,10 +398,10 @@ func diffCase(id int, seed int64, out *json.Encoder, big bool) {
 		Old: []term{}, New: []term{}, Added: []term{}, Removed: []term{}, Cb: [][]int{}, Cur: [][]int{}}
 
 	// ---- build the pair
-	modes := []string{"lineage", "lineage", "siblings", "unrelated", "emptied-old", "emptied-new", "fresh-old", "fresh-new", "nil-old", "same", "rebuilt", "rebuilt"}
+	modes := []string{"lineage", "lineage", "siblings", "unrelated", "emptied-old", "emptied-new", "fresh-old", "fresh-new", "nil-old", "same", "same-clone", "rebuilt", "rebuilt"}
 	ev.Mode = modes[rng.Intn(len(modes))]
 	if big {
-		ev.Mode = []string{"lineage", "lineage", "siblings", "same", "rebuilt"}[rng.Intn(5)]
+		ev.Mode = []string{"lineage", "lineage", "siblings", "same", "same-clone", "rebuilt"}[rng.Intn(6)]
 	}
 	base := r.fresh()
 	nb := rng.Intn(2*cfg.NK + 1)
@@ -515,6 +515,26 @@ func diffCase(id int, seed int64, out *json.Encoder, big bool) {
 		if rng.Intn(2) == 0 {
 			oldS, newS = newS, oldS
 		}
+	case "same-clone":
+		// the same version twice: a handle opened from the root, and a clone of it that was "persisted" without having been modified;
+		// the two handles are diffed as they are (not reopened)
+		oldS = base
+		r.persist(oldS)
+		cl, err := oldS.m.Clone(ctx)
+		if err != nil {
+			panic(err)
+		}
+		if rng.Intn(2) == 0 {
+			// ... a clone of a clone
+			if c2, err := cl.Clone(ctx); err == nil {
+				cl = c2
+			}
+		}
+		croot, err := cl.MakeRoot(ctx)
+		if err != nil {
+			panic(err)
+		}
+		newS = &diffSide{m: &cl, model: oldS.model, root: croot}
 	case "same":
 		oldS = base
 		r.persist(oldS)
@@ -525,11 +545,15 @@ func diffCase(id int, seed int64, out *json.Encoder, big bool) {
 	if big {
 		ev.Resid = "pp"
 	}
-	if oldS != nil && (ev.Resid[0] == 'p') {
-		r.persist(oldS)
-	}
-	if ev.Resid[1] == 'p' {
-		r.persist(newS)
+	if ev.Mode == "same-clone" {
+		ev.Resid = "pp"
+	} else {
+		if oldS != nil && (ev.Resid[0] == 'p') {
+			r.persist(oldS)
+		}
+		if ev.Resid[1] == 'p' {
+			r.persist(newS)
+		}
 	}
 	ev.HasOld = oldS != nil
 	ev.MN = pairsOf(newS.model)
@@ -548,7 +572,7 @@ func diffCase(id int, seed int64, out *json.Encoder, big bool) {
 		// its cache), the old version through a handle opened without any cache
 		ev.Stores = "writer"
 	}
-	if bothPersisted && !writerCache {
+	if bothPersisted && !writerCache && ev.Mode != "same-clone" {
 		if rng.Intn(3) == 0 {
 			// two independent stores: the old version is read from a store that holds only the old version's nodes, the new
 			// version from one that holds only the new version's nodes (a replica diffing a publisher's version)
@@ -571,7 +595,7 @@ func diffCase(id int, seed int64, out *json.Encoder, big bool) {
 		ev.DCache = rng.Intn(4) == 0
 	}
 	reopenBoth := func() (*mast.Mast, *mast.Mast) {
-		if !bothPersisted {
+		if !bothPersisted || ev.Mode == "same-clone" {
 			return newS.m, om
 		}
 		var cache mast.NodeCache
